@@ -618,17 +618,76 @@ fn plumbing_case(cfg: &Config, idx: u64, rng: &mut Rng, out: &mut Local) {
         let mut c = TextDiff::configure();
         c.timeout(d).newline_terminated(false).algorithm(alg);
         run("timeout(d).newline_terminated(false).algorithm(a)", &c, false, true, out);
+        // every setter overwrites: the one configured last is the one that must reach the algorithm
         let mut c = TextDiff::configure();
         c.algorithm(alg).deadline(t_abs).timeout(d);
-        run("deadline(t).timeout(d)", &c, true, true, out);
+        run("deadline(t).timeout(d)", &c, false, true, out);
         let mut c = TextDiff::configure();
         c.algorithm(alg).timeout(d).deadline(t_abs);
-        run("timeout(d).deadline(t)", &c, true, true, out);
+        run("timeout(d).deadline(t)", &c, true, false, out);
+        let mut c = TextDiff::configure();
+        c.algorithm(alg).deadline(t_abs + Duration::from_secs(5)).deadline(t_abs);
+        run("deadline(t').deadline(t)", &c, true, false, out);
         // a cloned config keeps its deadline
         let mut c = TextDiff::configure();
         c.algorithm(alg).deadline(t_abs);
         let c2 = c.clone();
         run("configure().deadline(t).clone()", &c2, true, false, out);
+    }
+    // REAL clock (no virtual clock installed): a diff whose deadline really lies in the past,
+    // followed on the same thread by diffs whose deadline lies a year ahead.  The first must
+    // still be a valid script, the later ones must equal the no-deadline result exactly.
+    {
+        vh::set_clock(vh::Clock::Off);
+        let past = Instant::now().checked_sub(Duration::from_secs(2)).unwrap_or_else(Instant::now);
+        let eq = |o: usize, n: usize| ta[o] == tb[n];
+        let none = guard(|| similar::capture_diff_slices(alg, &ta, &tb));
+        let expired = guard(|| capture_diff_slices_deadline(alg, &ta, &tb, Some(past)));
+        let later = guard(|| capture_diff_slices_deadline(alg, &ta, &tb, Some(far)));
+        let later_text = guard(|| TextDiff::configure().algorithm(alg).timeout(Duration::from_secs(3600)).diff_slices(&ta, &tb).ops().to_vec());
+        let later_raw = {
+            let mut mon = TraceMon::new(&eq, 0..ta.len(), 0..tb.len());
+            let r = guard(|| similar::algorithms::diff_deadline(alg, &mut mon, &ta[..], 0..ta.len(), &tb[..], 0..tb.len(), Some(far)));
+            mon.finish_check();
+            r.map(|_| mon)
+        };
+        out.evals_add(5);
+        out.count("real_clock_sequences");
+        let c = || format!("alg={} old tokens={} new tokens={}", alg_name(alg), fmt_seq(&a), fmt_seq(&b));
+        match (&none, &expired) {
+            (Ok(_), Ok(e)) => {
+                let v = check_ops(e, &eq, 0..ta.len(), 0..tb.len());
+                for (code, msg) in &v.script {
+                    out.violation(code, format!("real clock, deadline in the past: {} | {} | ops={}", msg, c(), fmt_ops(e)));
+                }
+            }
+            (_, Err(p)) => out.violation("panic", format!("real clock, deadline in the past: {} | {}", p, c())),
+            _ => {}
+        }
+        if let Ok(n0) = &none {
+            for (what, r) in [("capture_diff_slices_deadline(far)", &later), ("TextDiff timeout(1h)", &later_text)] {
+                match r {
+                    Ok(l) => {
+                        if l != n0 {
+                            out.violation(
+                                "deadline.never_expiring_differs",
+                                format!("real clock: after a diff whose deadline had passed, {} with a deadline far in the future gives {} but no deadline gives {} | {}", what, fmt_ops(l), fmt_ops(n0), c()),
+                            );
+                        }
+                    }
+                    Err(p) => out.violation("panic", format!("{}: {} | {}", what, p, c())),
+                }
+            }
+            if let Ok(mon) = &later_raw {
+                let cost: usize = n0.iter().map(|op| if matches!(op, DiffOp::Equal { .. }) { 0 } else { op.old_range().len() + op.new_range().len() }).sum();
+                if mon.failures.is_empty() && mon.cost() != cost && alg != Algorithm::Patience {
+                    out.violation(
+                        "deadline.never_expiring_differs",
+                        format!("real clock: raw diff with a deadline far in the future after an expired one costs {} but the no-deadline diff costs {} | {}", mon.cost(), cost, c()),
+                    );
+                }
+            }
+        }
     }
     // no deadline configured => no deadline-carrying check at all
     vh::set_clock(vh::Clock::Fuel(0));
